@@ -13,8 +13,11 @@ Open Scope list_scope.
 (* ------------------------------------------------------------------------------------------------------------- *)
 (* File system.  A directory is the list of its entries IN THE ORDER THE OPERATING SYSTEM LISTS THEM.
    A file carries what the finder reads from its text: [ns] = the text declares a pkgutil/pkg_resources style
-   namespace (only looked at for __init__.py); [pth] = for a *.pth file its usable lines, each (relative?, id of the
-   existing root directory the line designates).  Comment/blank/non-existing lines are dropped by the abstraction. *)
+   namespace (only looked at for __init__.py); [pth] = for a *.pth file its usable lines, each (cwd-only?, id of the
+   existing root directory the line designates): cwd-only = the line is relative and exists only relative to the
+   current directory, not relative to the directory of the .pth file (Griffe falls back to the cwd, site does not);
+   absolute lines and lines relative to the .pth file's directory have cwd-only = false.
+   Comment/blank/non-existing lines are dropped by the abstraction. *)
 Inductive node := File (ns : bool) (pth : list (bool * nat)) | Dir (es : list (string * node)).
 Definition listing := list (string * node).
 Definition path := (nat * list string)%type.          (* root directory id, components below it *)
@@ -122,6 +125,11 @@ Definition has_entry (n : string) (l : listing) : bool := match lookup_entry n l
 Definition has_file (n : string) (l : listing) : bool := match lookup_entry n l with Some (File _ _) => true | _ => false end.
 Definition sub (p : path) (c : string) : path := (fst p, snd p ++ [c]).
 
+Definition path_suffix (p : path) : string := pl_suffix (last (snd p) "").
+
+Definition is_init_name (fn : string) : bool := before_first_dot fn =? "__init__".
+
+
 (* ------------------------------------------------------------------------------------------------------------- *)
 (* finder.py *)
 Definition accepted_exts : list string := [".py"; ".pyc"; ".pyo"; ".pyd"; ".pyi"; ".so"].
@@ -150,7 +158,7 @@ Inductive yield := YSkip | YInit (parts : list string) | YMod (parts : list stri
 Definition name_to_yield (rel : list string) : yield :=
   let fn := last rel "" in
   let par := removelast rel in
-  let py := pl_suffix fn =? ".py" in
+  let py := (pl_suffix fn =? ".py") || (pl_suffix fn =? ".pyi") in       (* a stubs file is named like its module *)
   let stem := if py then pl_stem fn else before_first_dot (pl_stem fn) in
   if stem =? "__init__" then (if (List.length rel =? 1)%nat then YSkip else YInit par)
   else if py then YMod (par ++ [stem])
@@ -192,22 +200,54 @@ Definition start_dir (p : path) : option path :=
   else if mem_str (pl_suffix fn) accepted_exts then None
   else Some p.
 
-(* iter_submodules(list of portions): shared [seen] *)
-Fixpoint iter_portions (U : universe) (ds : list path) (seen : list (list string)) : res (list entry) :=
-  match ds with
-  | [] => Ok []
-  | d :: r =>
-      match start_dir d with
-      | None => iter_portions U r seen
-      | Some d' =>
-          match iter_files d' seen (portion_files U d') seen with
-          | Err e => Err e
-          | Ok (es, seen') =>
-              match iter_portions U r seen' with
-              | Ok es' => Ok (es ++ es')
-              | Err e => Err e
-              end
-          end
+(* iter_submodules(one portion), seen = None: nothing is skipped *)
+Definition iter_one (U : universe) (d : path) : list entry :=
+  match start_dir d with
+  | None => []
+  | Some d' => match iter_files d' [] (portion_files U d') [] with Ok (es, _) => es | Err _ => [] end
+  end.
+
+(* iter_submodules(list of portions).  All portions are scanned first; then, top-down, the first portion that has an
+   __init__ module (not a stub) in a folder that no other portion's regular package shadows becomes the PROVIDER of
+   that folder; a file is yielded only if every folder it is in is provided by its own portion or by none; and of
+   several source files of one name and suffix in different portions only the first portion's is yielded. *)
+Definition is_init_entry (e : entry) : bool := is_init_name (last (e_rel e) "").
+Definition provs := list (list string * path).
+
+Fixpoint prov_get (P : provs) (f : list string) : option path :=
+  match P with
+  | [] => None
+  | (k, d) :: r => if lstr_eqb k f then Some d else prov_get r f
+  end.
+
+Definition shadowed (P : provs) (d : path) (folders : list string) : bool :=
+  existsb (fun j => match prov_get P (firstn j folders) with Some d' => negb (path_eqb d' d) | None => false end)
+          (seq 1 (List.length folders)).
+
+Definition prov_step (P : provs) (e : entry) : provs :=
+  if is_init_entry e && negb (path_suffix (e_abs e) =? ".pyi") && negb (shadowed P (e_base e) (removelast (e_parts e)))
+  then match prov_get P (e_parts e) with Some _ => P | None => P ++ [(e_parts e, e_base e)] end
+  else P.
+
+Definition e_folders (e : entry) : list string := if is_init_entry e then e_parts e else removelast (e_parts e).
+
+Definition found_t := list ((list string * string) * path).
+Fixpoint found_get (F : found_t) (k : list string * string) : option path :=
+  match F with
+  | [] => None
+  | ((p, s), d) :: r => if lstr_eqb p (fst k) && (s =? snd k) then Some d else found_get r k
+  end.
+
+Fixpoint first_wins (P : provs) (subs : list entry) (F : found_t) : list entry :=
+  match subs with
+  | [] => []
+  | e :: r =>
+      if shadowed P (e_base e) (e_folders e) then first_wins P r F else
+      let suf := path_suffix (e_abs e) in
+      if negb ((suf =? ".py") || (suf =? ".pyi")) then e :: first_wins P r F else
+      match found_get F (e_parts e, suf) with
+      | Some d => if path_eqb d (e_base e) then e :: first_wins P r F else first_wins P r F
+      | None => e :: first_wins P r (F ++ [((e_parts e, suf), e_base e)])
       end
   end.
 
@@ -227,6 +267,12 @@ Definition depth (e : entry) : nat := List.length (e_parts e).
 Definition max_depth (l : list entry) : nat := fold_right (fun e m => Nat.max (depth e) m) 0 l.
 Definition depth_sort (l : list entry) : list entry :=
   flat_map (fun d => filter (fun e => (depth e =? d)%nat) l) (seq 0 (S (max_depth l))).
+
+Definition all_subs (U : universe) (ds : list path) : list entry := flat_map (iter_one U) ds.
+(* sorted(submodules, key=depth) is stable: for one folder the first portion wins *)
+Definition providers_of (subs : list entry) : provs := fold_left prov_step (depth_sort subs) [].
+Definition iter_portions (U : universe) (ds : list path) : list entry :=
+  let subs := all_subs U ds in first_wins (providers_of subs) subs [].
 
 (* find_package *)
 Inductive found := FPkg (p : path) (stubs : option path) | FNs (dirs : list path) | FNone.
@@ -263,12 +309,12 @@ Fixpoint insert_sorted (x : string * node) (l : listing) : listing :=
   end.
 Definition sort_listing (l : listing) : listing := fold_right insert_sorted [] l.
 
-(* _extend_from_pth_files: the loop runs over the list it appends to.  [done] ++ [todo] is search_paths. *)
+(* _extend_from_pth_files: the loop runs over a snapshot of the search paths (directories added by a .pth file are not
+   scanned for .pth files); every usable line of a .pth file -- absolute, or relative to the directory of the .pth
+   file -- designates a root directory. *)
 Definition pth_targets_griffe (L : listing) : list nat :=
   flat_map (fun e : string * node => match snd e with
-                     | File _ lines => if pl_suffix (fst e) =? ".pth"
-                                       then flat_map (fun l : bool * nat => if fst l then [] else [snd l]) lines   (* relative lines: resolved against the cwd, not found *)
-                                       else []
+                     | File _ lines => if pl_suffix (fst e) =? ".pth" then map snd lines else []
                      | Dir _ => [] end) (sort_listing L).       (* sorted(contents), as site does *)
 
 Fixpoint add_new (xs : list nat) (known : list nat) : list nat :=
@@ -277,24 +323,9 @@ Fixpoint add_new (xs : list nat) (known : list nat) : list nat :=
   | x :: r => if mem_nat x known then add_new r known else x :: add_new r (known ++ [x])
   end.
 
-Fixpoint g_paths_loop (fuel : nat) (U : universe) (done todo : list nat) : option (list nat) :=
-  match todo with
-  | [] => Some done
-  | p :: r =>
-      match fuel with
-      | O => None
-      | S f =>
-          let new := add_new (pth_targets_griffe (root U p)) (done ++ todo) in
-          g_paths_loop f U (done ++ [p]) (r ++ new)
-      end
-  end.
-
-Definition total_pth_lines (U : universe) : nat :=
-  fold_right (fun il n => List.length (pth_targets_griffe (snd il)) + n) 0 U.
-
-Definition g_paths (U : universe) (sps : list nat) : option (list nat) :=
+Definition g_paths (U : universe) (sps : list nat) : list nat :=
   let s := add_new sps [] in
-  g_paths_loop (List.length s + total_pth_lines U + 1) U [] s.
+  fold_left (fun acc p => acc ++ add_new (pth_targets_griffe (root U p)) acc) s s.
 
 (* ------------------------------------------------------------------------------------------------------------- *)
 (* loader.py: the tree is kept as a map from the dotted path below the top module ([] = the top module) *)
@@ -312,10 +343,6 @@ Fixpoint set_m (k : list string) (v : minfo) (M : mstate) : mstate :=
   | [] => [(k, v)]
   | (k', w) :: r => if lstr_eqb k' k then (k', v) :: r else (k', w) :: set_m k v r
   end.
-
-Definition path_suffix (p : path) : string := pl_suffix (last (snd p) "").
-
-Definition is_init_name (fn : string) : bool := before_first_dot fn =? "__init__".
 
 (* _get_or_create_parent_module; returns the state (side effects persist) and the parent key, None = UnimportableModuleError *)
 Fixpoint goc (M : mstate) (cur : list string) (todo : list string) (k : nat) (mfp : nat -> path)
@@ -386,16 +413,73 @@ Definition load_found (insp : bool) (U : universe) (f : found) : loaded :=
       | _ => LErr "LoadingError"            (* read_text of a directory *)
       end
   | FNs ds =>
-      match iter_portions U ds [] with
-      | Err e => LErr e
-      | Ok es => LOk (fold_left (load_entry insp) (depth_sort es) [([], MNs ds)])
-      end
+      LOk (fold_left (load_entry insp) (depth_sort (iter_portions U ds)) [([], MNs ds)])
   end.
 
 Definition load (insp : bool) (U : universe) (sps : list nat) (name : string) : loaded :=
-  match g_paths U sps with
-  | None => LErr "OutOfFuel"
-  | Some ps => load_found insp U (g_find U name ps [])
+  load_found insp U (g_find U name (g_paths U sps) []).
+
+(* ------------------------------------------------------------------------------------------------------------- *)
+(* Loading by the PATH of a directory or file: finder._module_name_path and finder._top_module_name.
+   Search directories are root directories of the universe; a path that makes _top_module_name add a directory that
+   is not a root (a namespace folder above the target), or that is a search directory itself, is outside the model
+   ([BPUnsupported], counted by the harness). *)
+Definition first_init (L : listing) : option string :=
+  find (fun fn => has_entry fn L) (map (fun ext => ("__init__" ++ ext)%string) accepted_exts).
+
+(* _module_name_path: (module name, module path); None = FileNotFoundError *)
+Definition module_name_path (U : universe) (p : path) : option (string * path) :=
+  match node_at U p with
+  | Some (Dir L) =>
+      let name := last (snd p) "" in
+      match first_init L with Some fn => Some (name, sub p fn) | None => Some (name, p) end
+  | Some (File _ _) =>
+      let fn := last (snd p) "" in
+      if pl_stem fn =? "__init__" then Some (last (removelast (snd p)) "", p) else Some (pl_stem fn, p)
+  | None => None
+  end.
+
+(* the `while` loop of _top_module_name: climb while the directory above has an __init__.py *)
+Fixpoint climb (U : universe) (r : nat) (comps : list string) (fuel : nat) : option (string * option nat) :=
+  match fuel with
+  | O => None
+  | S f =>
+      let up := removelast comps in
+      match listing_at U (r, up) with
+      | Some L =>
+          if has_entry "__init__.py" L
+          then (match up with [] => None | _ => climb U r up f end)
+          else (match up with [] => Some (last comps "", Some r) | _ => None end)
+      | None => None
+      end
+  end.
+
+(* _top_module_name: (top-level name, search directory inserted at position 0); None = outside the model *)
+Definition top_module_name (U : universe) (paths : list nat) (mp : path) : option (string * option nat) :=
+  let parent := match node_at U mp with Some (Dir _) => mp | _ => (fst mp, removelast (snd mp)) end in
+  match snd parent with
+  | [] => None
+  | c :: _ => if mem_nat (fst parent) paths then Some (c, None)
+              else climb U (fst parent) (snd parent) (List.length (snd parent))
+  end.
+
+Inductive byp := BPNotFound | BPUnsupported | BPLoaded (name : string) (l : loaded).
+
+Definition load_by_path (U : universe) (sps : list nat) (p : path) : byp :=
+  match module_name_path U p with
+  | None => BPNotFound
+  | Some (mn, mp) =>
+      let paths := g_paths U sps in
+      match top_module_name U paths mp with
+      | None => BPUnsupported
+      | Some (top, extra) =>
+          let paths' := match extra with Some r => r :: paths | None => paths end in
+          BPLoaded top
+            (match load_found false U (g_find U top paths' []) with
+             | LOk M => if mn =? top then LOk M else LErr "KeyError"       (* modules_collection.get_member(module name) *)
+             | other => other
+             end)
+      end
   end.
 
 (* ------------------------------------------------------------------------------------------------------------- *)
@@ -546,7 +630,8 @@ Fixpoint py_walk (fuel : nat) (U : universe) (dirs : list path) (prefix : list s
 Definition pth_targets_py (L : listing) : list nat :=
   flat_map (fun e : string * node => match snd e with
                      | File _ lines => if match strip_suffix (fst e) ".pth" with Some _ => true | None => false end
-                                       then map snd lines else []
+                                       then flat_map (fun l : bool * nat => if fst l then [] else [snd l]) lines   (* a line that only exists relative to the cwd is not found *)
+                                       else []
                      | Dir _ => [] end) (sort_listing L).
 
 Definition py_paths (U : universe) (sps : list nat) : list nat :=
@@ -569,12 +654,8 @@ Definition is_src_ext (x : string) : bool := (x =? ".py") || (x =? ".pyi").
 Definition module_stem (fn : string) : string :=
   if pl_suffix fn =? ".py" then pl_stem fn else before_first_dot (pl_stem fn).
 
-(* F5: two stub files of one directory that map to the same module name *)
 Fixpoint has_dup (l : list string) : bool :=
   match l with [] => false | x :: r => mem_str x r || has_dup r end.
-Definition gapL_F5 (L : listing) : bool :=
-  has_dup (flat_map (fun e : string * node =>
-                       if is_file (snd e) && (os_ext (fst e) =? ".pyi") then [module_stem (fst e)] else []) L).
 
 Definition any_listing (f : listing -> bool) (U : universe) : bool := existsb f (all_listings U).
 
@@ -583,20 +664,26 @@ Definition pth_files (L : listing) : list (string * list (bool * nat)) :=
   flat_map (fun e : string * node => match snd e with
                      | File _ lines => if pl_suffix (fst e) =? ".pth" then [(fst e, lines)] else []
                      | Dir _ => [] end) L.
+(* F6 (what is left of it): some .pth line exists only relative to the current directory *)
 Definition gapU_F6 (U : universe) : bool :=
   existsb (fun il : nat * listing => existsb (fun f : string * list (bool * nat) => existsb (fun l : bool * nat => fst l) (snd f)) (pth_files (snd il))) U.
-Definition all_pth_targets (U : universe) : list nat :=
-  flat_map (fun il : nat * listing => flat_map (fun f : string * list (bool * nat) => map snd (snd f)) (pth_files (snd il))) U.
-Definition gapU_F7 (U : universe) : bool :=
-  existsb (fun i => match pth_files (root U i) with [] => false | _ => true end) (all_pth_targets U).
 
-(* namespace packages over several portions *)
+(* a file called exactly ".pth": site (CPython 3.12.1) reads it, pathlib gives it no suffix (newer CPythons skip every
+   hidden .pth file); outside the stated domain *)
+Definition pth_names_okb (U : universe) : bool :=
+  forallb (fun il : nat * listing => forallb (fun e : string * node => negb (fst e =? ".pth")) (snd il)) U.
+
+(* namespace packages over several portions: the shapes of the repaired findings F8, F3 and F10, as predicates on
+   the list of yielded entries (Proofs/C14_ns.v: the repaired iter_portions never yields such a list) *)
 Definition entry_ok (e : entry) : bool := negb (existsb has_dot (e_parts e)) && static_loadable (e_abs e).
 
+(* F8: two source files of one name and suffix from different portions *)
 Fixpoint dup_across (es : list entry) : bool :=
   match es with
   | [] => false
-  | e :: r => (entry_ok e && existsb (fun e' => entry_ok e' && lstr_eqb (e_parts e) (e_parts e') && negb (path_eqb (e_base e) (e_base e'))) r)
+  | e :: r => (static_loadable (e_abs e) &&
+               existsb (fun e' => lstr_eqb (e_parts e) (e_parts e') && (path_suffix (e_abs e) =? path_suffix (e_abs e')) &&
+                                  negb (path_eqb (e_base e) (e_base e'))) r)
               || dup_across r
   end.
 
@@ -607,22 +694,11 @@ Fixpoint proper_prefixes {A} (l : list A) : list (list A) :=
   | x :: r => match r with [] => [] | _ => [x] :: map (cons x) (proper_prefixes r) end
   end.
 
-(* F3: a later portion still yields a file below a directory that an earlier portion owns as a regular package *)
-Fixpoint f3_portions (U : universe) (ds : list path) (seen : list (list string)) : bool :=
-  match ds with
-  | [] => false
-  | d :: r =>
-      match start_dir d with
-      | None => f3_portions U r seen
-      | Some d' =>
-          let files := portion_files U d' in
-          existsb (fun rel => negb (mem_lstr (removelast rel) seen) &&
-                              existsb (fun a => mem_lstr a seen) (proper_prefixes (removelast rel))) files
-          || match iter_files d' seen files seen with
-             | Ok (_, seen') => f3_portions U r seen'
-             | Err _ => false
-             end
-      end
+Fixpoint is_prefix (a b : list string) : bool :=
+  match a, b with
+  | [], _ => true
+  | x :: a', y :: b' => (x =? y) && is_prefix a' b'
+  | _, _ => false
   end.
 
 Fixpoint is_proper_prefix (a b : list string) : bool :=
@@ -632,14 +708,10 @@ Fixpoint is_proper_prefix (a b : list string) : bool :=
   | _, _ => false
   end.
 
-(* F10: an earlier portion yields something below a directory that a LATER portion owns as a regular package *)
-Fixpoint f10 (es : list entry) : bool :=
-  match es with
-  | [] => false
-  | e :: r => existsb (fun i => entry_ok i && is_init_name (last (e_rel i) "") && negb (path_eqb (e_base e) (e_base i)) &&
-                                is_proper_prefix (e_parts i) (e_parts e)) r
-              || f10 r
-  end.
+(* F3/F10: something is yielded from inside a folder that ANOTHER portion provides as a regular package *)
+Definition shadow_violation (es : list entry) : bool :=
+  existsb (fun i => is_init_entry i && negb (path_suffix (e_abs i) =? ".pyi") &&
+                    existsb (fun e => is_prefix (e_parts i) (e_folders e) && negb (path_eqb (e_base e) (e_base i))) es) es.
 
 Definition decl_mixed (U : universe) (name : string) (paths : list nat) : bool :=
   let decl i := match lookup_entry name (root U i) with
@@ -650,19 +722,7 @@ Definition decl_mixed (U : universe) (name : string) (paths : list nat) : bool :
 
 Definition gaps (U : universe) (sps : list nat) (name : string) : list string :=
   let tag (b : bool) (t : string) := if b then [t] else [] in
-  
-  tag (any_listing gapL_F5 U) "F5" ++ tag (gapU_F6 U) "F6" ++ tag (gapU_F7 U) "F7" ++
-  match g_paths U sps with
-  | None => []
-  | Some ps =>
-      tag (decl_mixed U name ps) "nsdecl-mixed" ++
-      match g_find U name ps [] with
-      | FNs ds =>
-          tag (f3_portions U ds []) "F3" ++
-          match iter_portions U ds [] with Ok es => tag (dup_across es) "F8" ++ tag (f10 es) "F10" | Err _ => [] end
-      | _ => []
-      end
-  end.
+  tag (gapU_F6 U) "F6" ++ tag (negb (pth_names_okb U)) "pth-dot-name" ++ tag (decl_mixed U name (g_paths U sps)) "nsdecl-mixed".
 
 (* ------------------------------------------------------------------------------------------------------------- *)
 (* Decidable hypotheses of the importability theorem (Proofs/C14_finder.v, Part H/I): is a regular package inside its domain? *)
@@ -670,13 +730,6 @@ Definition compiled_suffixes : list string := [ext_suffix; ".abi3.so"; ".so"; ".
 
 
 Definition is_pyi (e : entry) : bool := path_suffix (e_abs e) =? ".pyi".
-
-
-(* decidable form of no_clash, for examples *)
-Definition no_clashb (E : list entry) : bool :=
-  forallb (fun a => forallb (fun b =>
-     negb (entry_ok a && entry_ok b && lstr_eqb (e_parts a) (e_parts b) && Bool.eqb (is_pyi a) (is_pyi b))
-     || path_eqb (e_abs a) (e_abs b)) E) E.
 
 
 Fixpoint nodupb (l : list string) : bool :=
@@ -702,9 +755,9 @@ Definition key_okb (k : list string) : bool :=
 
 (* is this regular package inside the domain of the importability theorem? *)
 Definition in_domain (U : universe) (i : nat) (dirc : list string) : bool :=
-  match node_at U (i, dirc), iter_regular U (i, dirc ++ ["__init__.py"]) with
-  | Some (Dir L0), Ok es => tree_okb (Dir L0) && no_clashb es
-  | _, _ => false
+  match node_at U (i, dirc) with
+  | Some (Dir L0) => tree_okb (Dir L0)
+  | _ => false
   end.
 
 
@@ -781,18 +834,50 @@ Definition run_C14 (s : sexp) : sexp :=
   match s with
   | SList [SStr "paths"; c] =>
       match dec_case c with
-      | Some (u, sp, _) => SList [of_opt (fun l => SList (map of_nat l)) (g_paths u sp); SList (map of_nat (py_paths u sp))]
+      | Some (u, sp, _) => SList [SList (map of_nat (g_paths u sp)); SList (map of_nat (py_paths u sp))]
       | None => bad_input end
   | SList [SStr "find"; c] =>
       match dec_case c with
-      | Some (u, sp, n) => match g_paths u sp with
-                           | Some ps => SList [SStr "ok"; SList (map of_nat ps); enc_found (g_find u n ps [])]
-                           | None => SList [SStr "err"; SStr "OutOfFuel"] end
+      | Some (u, sp, n) => let ps := g_paths u sp in SList [SStr "ok"; SList (map of_nat ps); enc_found (g_find u n ps [])]
       | None => bad_input end
   | SList [SStr "load"; insp; c] =>
       match dec_case c, as_bool insp with
       | Some (u, sp, n), Some i => enc_loaded n (load i u sp n)
       | _, _ => bad_input end
+  | SList [SStr "bypath"; c; tgt] =>
+      match dec_case c, tgt with
+      | Some (u, sp, _), SList [r; comps] =>
+          match as_nat r, as_list_of as_str comps with
+          | Some r', Some cs =>
+              match load_by_path u sp (r', cs) with
+              | BPNotFound => SList [SStr "err"; SStr "FileNotFoundError"]
+              | BPUnsupported => SList [SStr "unsupported"]
+              | BPLoaded top l => enc_loaded top l
+              end
+          | _, _ => bad_input
+          end
+      | _, _ => bad_input end
+  | SList [SStr "subs"; c] =>
+      (* finder.submodules(top module): the ordered list handed to the loader *)
+      match dec_case c with
+      | Some (u, sp, n) =>
+          let enc es := SList (map (fun e => SList [SList (map SStr (e_parts e)); enc_path (e_abs e)]) (depth_sort es)) in
+          match g_find u n (g_paths u sp) [] with
+          | FPkg p _ => match iter_regular u p with Ok es => enc es | Err e => SList [SStr "err"; SStr e] end
+          | FNs ds => enc (iter_portions u ds)
+          | FNone => SList [SStr "notfound"]
+          end
+      | None => bad_input end
+  | SList [SStr "nsok"; c] =>
+      (* the shapes of F8 / F3 / F10 on what iter_portions yields (Proofs/C14_ns.v: always false) *)
+      match dec_case c with
+      | Some (u, sp, n) =>
+          match g_find u n (g_paths u sp) [] with
+          | FNs ds => SList [of_bool (dup_across (iter_portions u ds)); of_bool (shadow_violation (iter_portions u ds));
+                             of_bool (dup_across (all_subs u ds)); of_bool (shadow_violation (all_subs u ds))]
+          | _ => SList []
+          end
+      | None => bad_input end
   | SList [SStr "gaps"; c] =>
       match dec_case c with
       | Some (u, sp, n) => SList (map SStr (gaps u sp n))
@@ -800,15 +885,11 @@ Definition run_C14 (s : sexp) : sexp :=
   | SList [SStr "domain"; c] =>
       match dec_case c with
       | Some (u, sp, n) =>
-          match g_paths u sp with
-          | Some ps =>
-              match g_find u n ps [] with
-              | FPkg (i, comps) _ =>
-                  if (last comps "" =? "__init__.py") && (2 <=? List.length comps)%nat
-                  then of_bool (in_domain u i (removelast comps)) else of_bool false
-              | _ => of_bool false
-              end
-          | None => of_bool false
+          match g_find u n (g_paths u sp) [] with
+          | FPkg (i, comps) _ =>
+              if (last comps "" =? "__init__.py") && (2 <=? List.length comps)%nat
+              then of_bool (in_domain u i (removelast comps)) else of_bool false
+          | _ => of_bool false
           end
       | None => bad_input end
   | SList [SStr "pyfind"; c] =>
